@@ -93,7 +93,10 @@ def builtinChords : List ChordDef :=
 
 /-- `newChordMap` with user lists appended after the built-ins -/
 def newDict (userAttrs : List Attr) (userChords : List ChordDef) : Option Dict :=
-  build (builtinAttrs ++ userAttrs) (builtinChords ++ userChords)
+  -- `ParseAttributes` / `ParseChords` validate every user entry while loading the files
+  if userAttrs.all Attr.valid && userChords.all ChordDef.valid then
+    build (builtinAttrs ++ userAttrs) (builtinChords ++ userChords)
+  else none
 
 /-- `chord.GenerateAttributes` -/
 def generateAttributes (maxDegree : Nat) : List Attr :=
